@@ -228,6 +228,18 @@ def generated(quick):
         add('generic-assocs/%d' % n, 'int x = _Generic(1, ' + ''.join('struct g%d *: %d, ' % (i, i) for i in range(min(n, 1000))) + 'default: 0);\n')
         add('attr-list/%d' % n, '[[' + ', '.join('a%d' % i for i in range(n)) + ']] int x;\n')
         add('init-list/%d' % n, 'int a[] = { ' + ', '.join(str(i) for i in range(n)) + ' };\n')
+    # macro chains of EVERY length (the context-frame array grows at particular numbers of live frames: 11, 22, 43, ...; seeded round 8)
+    for n in range(1, 70 if quick else 400):
+        f = '#define F0(x) x\n' + ''.join('#define F%d(x) F%d(x)\n' % (k, k - 1) for k in range(1, n + 1))
+        add('macro-forward-chain/%d' % n, f + 'int v = F%d(1); int w = F%d(F%d(2)); int z[] = { F%d() };\n' % (n, n, n, n))
+        l = '#define L0(p, q) ((p) + (q))\n' + ''.join('#define L%d(p, q) L%d(p, q)\n' % (k, k - 1) for k in range(1, n + 1))
+        add('macro-forward2-chain/%d' % n, l + 'int p; int v = L%d(p, 7) + L%d((1, 2), 3);\n' % (n, n))
+        v = '#define V0(...) {__VA_ARGS__}\n' + ''.join('#define V%d(a, ...) V%d(__VA_ARGS__, a)\n' % (k, k - 1) for k in range(1, n + 1))
+        add('macro-variadic-chain/%d' % n, v + 'int a[] = V%d(1, 2, 3);\n' % n)
+        m = '#define O0 1\n#define M0(x) [x]\n' + ''.join('#define O%d O%d\n#define M%d(x) O%d M%d(x)\n' % (k, k - 1, k, k % 3, k - 1) for k in range(1, n + 1))
+        add('macro-mixed-chain/%d' % n, m + 'int b = sizeof(int M%d(O%d));\n' % (n, n))
+        s2 = '#define S0(x) #x x\n' + ''.join('#define S%d(x) S%d(x)\n' % (k, k - 1) for k in range(1, n + 1))
+        add('macro-stringify-chain/%d' % n, s2 + 'char c[] = S%d();\n' % n)
     for n in (31, 32, 33, 64, 100):
         add('designators/%d' % n, 'struct s { ' * 1 + 'int x; };\nint a' + '[2]' * n + ' = { ' + '[0]' * n + ' = 1 };\n')
         add('nested-init-struct/%d' % n, ''.join('struct t%d { ' % i for i in range(n)) + 'int x; ' + ''.join('} m%d; ' % (n - 1 - i) for i in range(n - 1)) + '} v = ' + '{' * n + '1' + '}' * n + ';\n')
